@@ -25,7 +25,7 @@ AInitRun(n, w, ex, lim) ==
     /\ total = n /\ nw = w /\ gen = 0 /\ kHit = {} /\ kMiss = {} /\ kFail = {} /\ kReqErr = {}
     /\ busy = {} /\ ended = {} /\ printed = {} /\ errs = {}
     /\ done = FALSE /\ returned = FALSE /\ cancelled = FALSE /\ exact = ex /\ limited = lim /\ charged = 0
-AInit == \E w \in 1..R : AInitRun(R, w, TRUE, FALSE)
+AInit == \E w \in 1..R, ex \in BOOLEAN : AInitRun(R, w, ex, FALSE)
 
 Gen(i, k) == /\ i = gen + 1 /\ i <= total /\ gen' = i
              /\ kHit' = IF k = "hit" THEN kHit \cup {i} ELSE kHit
@@ -59,7 +59,8 @@ DoneSeen == /\ ~done /\ busy = {} /\ (cancelled \/ Settled) /\ done' = TRUE
 \* the scan call returns: no probe in flight; if it was not cancelled from outside (and the exit delay was long
 \* enough) every detected service has been printed and every failure logged
 Returned == /\ ~returned /\ busy = {} /\ (cancelled \/ Settled) /\ returned' = TRUE
-            /\ ((~cancelled /\ exact) => (printed = kHit /\ errs = kReqErr \cup kFail))
+            /\ ((~cancelled /\ exact) => printed = kHit)
+            /\ (~cancelled => errs = kReqErr \cup kFail)        \* failures are logged before the call returns, whatever the exit delay
             /\ UNCHANGED <<total, nw, gen, kHit, kMiss, kFail, kReqErr, busy, ended, printed, errs, done, cancelled, exact, limited, charged>>
 Cancel == /\ ~cancelled /\ cancelled' = TRUE
           /\ UNCHANGED <<total, nw, gen, kHit, kMiss, kFail, kReqErr, busy, ended, printed, errs, done, returned, exact, limited, charged>>
@@ -71,4 +72,5 @@ ASpec == AInit /\ [][ANext]_avars
 OnlyHitsPrinted == printed \subseteq (kHit \cap ended)
 OnlyFailuresLogged == errs \subseteq (kReqErr \cup (kFail \cap ended))
 ExactAtReturn == (returned /\ ~cancelled /\ exact) => (printed = kHit /\ errs = kReqErr \cup kFail /\ ended = (1..total) \ kReqErr)
+ErrorsAtReturn == (returned /\ ~cancelled) => errs = kReqErr \cup kFail
 ===============================================================================
